@@ -274,8 +274,12 @@ def _c15_chunk(run, specs):
             oracle_s = jets.compose(levels, [x], dser) if levels else [dser((0,))]
             obss = [(f'y#{i}', a, b) for i, (a, b) in enumerate(zip(outs['y'], oracle_s))]
             pctx = PathCtx(run, case, path, terms, [('lt', xr, EPS), ('gt', xr, ir.neg(EPS))])
+            # tolerance: 2^-20 relative to the true coefficient plus eps/4 absolute (the rounding
+            # level of a well-conditioned evaluation; eps is the symbolic machine epsilon)
+            tolfn = lambda cr: ir.add(ir.mul(ir.T('const', Fraction(1, 2 ** 20)), ir.fn('abs', cr)),
+                                      ir.T('div', EPS, const(4)))
             decide_path(run, case, pctx, obss, f'C15:{f}:series-region', revars=rv,
-                        tol=Fraction(1, 2 ** 20), vacuity=False)
+                        tol=tolfn, vacuity=False)
         if len(run.samples) < 3:
             run.sample({'case': case_id(case), 'paths': len(case['paths']),
                         'conditions': [[c[0], str(terms[c[1]])[:50], str(terms[c[2]])[:30], c[3]]
@@ -297,7 +301,7 @@ def c15(run):
             for p in presence_patterns(sh, 1, run.tier, rng, cap=4):
                 specs.append((sh, f'un:{f}', p))
     run.bounds = {'total derivative order': '<= 4 (series of the repository are exact at 0 up to order 4)',
-                  'tolerance in the series region': '2^-20 absolute per coefficient, |x| < eps <= 2^-23',
+                  'tolerance in the series region': '2^-20 relative to the true coefficient + eps/4 absolute, |x| < eps <= 2^-23',
                   'outside': 'rounding of the closed forms for tiny non-zero |x| >= eps (cancellation) is a '
                              'floating-point fact and is not decided'}
     chunks = [specs[i:i + 8] for i in range(0, len(specs), 8)]
